@@ -68,6 +68,7 @@ def instances(tier):
 
 
 def cost_step(E, rank, N, closures, flags, claims=('A', 'B', 'C'), **bk):
+    bk.setdefault('reassign', not bk.get('group_assign'))
     B = build(E, rank, N, closures=closures, flags=flags, **bk)
     P = B.S.createPRISM()
     rec = record_closures(P, B.types)
@@ -82,7 +83,9 @@ def cost_step(E, rank, N, closures, flags, claims=('A', 'B', 'C'), **bk):
         return          # an arbitrary closure returns fresh values at every call
     y1 = [y[i] for i in range(len(y))]
     x2 = E.arr('z', (N * rank * rank,), default=-0.05)
-    P.cost(x2)
+    rec.clear()
+    y2 = P.cost(x2)
+    claim_cost(E, B, P, x2, y2, rec, tag='second-evaluation:', claims=('B',), canary=False)      # nothing memoised from the first point
     y3 = P.cost(x)
     for i in range(len(y1)):
         E.claim_eq('stateless[%d]' % i, y3[i], y1[i])
